@@ -165,6 +165,12 @@ def emit (serialize : Bool) (strOf : Nat → Except Err Str) (formatted : Str) (
     Except Err Str :=
   if serialize && Gen.serializeAfterFormatting then serializeRecord strOf formatted r else .ok formatted
 
+/-- a long-lived handler fed a history of (formatted text, record) pairs.  `_serialize_record` is a
+static function of its two arguments (`Gen.serializeIsPure`, checked on the AST), so the i-th line
+depends on the i-th pair only – level updates, earlier records, other handlers cannot show. -/
+def emitHistory (strOf : Nat → Except Err Str) (h : List (Str × Record)) : List (Except Err Str) :=
+  if Gen.serializeIsPure then h.map (fun p => emit true strOf p.1 p.2) else []
+
 /-- `Logger.add`: the handler's `colorize` flag; `sinkWants` is what the sink-type dispatch decides
 when the flag is still `None` there. -/
 def handlerColorize (colorize : Option Bool) (serialize : Bool) (sinkWants : Bool) : Bool :=
